@@ -516,6 +516,16 @@ func parseTrailer(t *protocol.Trailer, buf []byte) (int, error) {
 		}
 	}
 
+	// Take values only from a complete trailer section: a value picked up from
+	// a partial buffer (an obs-folded value whose continuation line has not
+	// arrived yet) is not replaced when the section is parsed again.
+	probe := HeaderScanner{B: buf, DisableNormalizing: t.IsDisableNormalizing()}
+	for probe.Next() {
+	}
+	if probe.Err != nil {
+		return 0, probe.Err
+	}
+
 	var s HeaderScanner
 	s.B = buf
 	s.DisableNormalizing = t.IsDisableNormalizing()
